@@ -738,6 +738,9 @@ def validate_unique_names(nodes):
 def validate_values(nodes, constants, strict=False):
     """ Enumerators and union discriminators are encoded as 32-bit unsigned integers. Requires cross referenced nodes. """
     def check(what, owner, value, low=0, high=0xFFFFFFFF, range_name="32-bit unsigned range"):
+        if strict and isinstance(value, six.string_types) and re.search(r"[\x00-\x1f]|--|\+\+", value):
+            """ the text is pasted into the generated code: a line break ends a Python statement, -- is a C++ operator """
+            raise ModelError("%s %r of %s cannot be written in the generated code" % (what, value, owner))
         try:
             number = to_int(value, constants)
         except (calc.ParseError, TypeError, ZeroDivisionError, ValueError, OverflowError) as e:
@@ -766,6 +769,10 @@ def validate_values(nodes, constants, strict=False):
                                          (member.value, node.name, symbol))
                 later.discard(member.name)
                 check("enumerator value", node.name, member.value)
+        elif isinstance(node, Struct) and strict:
+            for member in node.members:
+                if isinstance(member.size, six.string_types) and re.search(r"[\x00-\x1f]|--|\+\+", member.size):
+                    raise ModelError("size %r of array '%s' of %s cannot be written in the generated code" % (member.size, member.name, node.name))
         elif isinstance(node, Union):
             values = set()
             for member in node.members:
